@@ -484,7 +484,13 @@ func ResolveExternalLocation(
 		// Check for redirect loops
 		_, hasLocation := metaGet(recMeta, MetaLocation)
 		if hasLocation && rec.NumRows() == 0 {
+			if resolvedBatch != nil {
+				resolvedBatch.Release()
+			}
 			return batch, meta, fmt.Errorf("external location redirect loop detected")
+		}
+		if resolvedBatch != nil {
+			resolvedBatch.Release() // an earlier data batch is superseded, not leaked
 		}
 		rec.Retain()
 		resolvedBatch = rec
@@ -582,10 +588,11 @@ func redactExternalURL(rawURL string) string {
 	return u.String()
 }
 
-// batchMetadata extracts custom metadata from a record batch.
+// batchMetadata extracts the per-batch custom metadata (not the schema
+// metadata) from a record batch.
 func batchMetadata(rec arrow.RecordBatch) arrow.Metadata {
-	if rec.Schema().HasMetadata() {
-		return rec.Schema().Metadata()
+	if rb, ok := rec.(arrow.RecordBatchWithMetadata); ok {
+		return rb.Metadata()
 	}
 	return arrow.Metadata{}
 }
